@@ -5,10 +5,10 @@ import Gzx.Model.DMDecoder
 namespace Gzx.Driver.C08
 open Gzx
 
-/-- the 16 parity lengths of ECC 200 and their generator coefficient rows, as the standard defines them
-    (the model of `factorSets` / `factors`; `Obligations.C08` proves the regenerated Go tables equal them) -/
-def factorSets : List Nat := [5, 7, 10, 11, 12, 14, 18, 20, 24, 28, 36, 42, 48, 56, 62, 68]
-def factors : List (List Nat) := factorSets.map (fun n => (DMRef.genPoly n).take n)
+/-- the model of `factorSets` / `factors`: the standard's generator polynomials
+    (`Obligations.C08` proves the regenerated Go tables equal them) -/
+def factorSets : List Nat := DMRef.parityLengths
+def factors : List (List Nat) := DMRef.factorTable
 
 /-- a modelled Go panic prints as the harness prints a recovered panic -/
 def showR {α} (f : α → String) : Res α → String
